@@ -71,7 +71,11 @@ func labelBody(r *core.Rand, n int) string {
 }
 
 func limitsDoc(r *core.Rand) (string, string) {
-	switch fam := r.Intn(12); fam {
+	switch fam := r.Intn(13); fam {
+	case 12: // long names: raw tag names with upper-case letters, entity names, info strings, attribute names
+		n := []int{30, 31, 32, 33, 62, 63, 64, 65, 66, 127, 128, 129, 255, 256, 257, 1000}[r.Intn(16)]
+		name := "X" + strings.Repeat([]string{"a", "B", "-", "1"}[r.Intn(4)], n-1)
+		return fmt.Sprintf("<%s>\ntext <%s attr%s='v'> and </%s> &%s; &#%s;\n\n<div>\n<%s\n\n``` %s\ncode\n```\n", name, name, name, name, name, strings.Repeat("1", n%9+1), name, name), fmt.Sprintf("names of %d characters", n)
 	case 0, 1: // link labels around 999
 		n := r.Range(993, 1004)
 		if r.Intn(4) == 0 {
